@@ -1402,7 +1402,7 @@ func main() {
 
 	tStart := time.Now()
 	shards := r.N(8, 16)
-	total := dbg("VERIF_DEBUG_N", r.N(10000, 400000))
+	total := dbg("VERIF_DEBUG_N", r.N(10000, 200000))
 	per := total / shards
 	type shardRes struct {
 		cases []Case
